@@ -17,13 +17,14 @@ RULE = ("every schema of the bounded grammar for which schema building is suppor
 ASSUMPTIONS = ["standard validator = jsonschema 4.26 Draft202012Validator without format assertion",
                "for OPEN_API_3_1 the definitions are made resolvable as #/components/schemas/<name>"]
 UNIT_TIMEOUT = 900
+RECLIMIT = 300      # a self-referencing schema recurses to the limit (open finding); a low limit keeps those cases cheap
 CHUNK = 8
 UNSUPPORTED_LEAVES = {"pattern", "sertype"}
 
 
 def bounds(tier):
     return dict(tier=tier, schemas=len(_schemas(tier)), dialects=["DRAFT_2020_12", "OPEN_API_3_1"], all_refs=[False, True],
-                targets=["bare", "dataclass field", "aliased dataclass (metadata / Config.aliases / both / Annotated Alias)", "init=False field", "tuples with a fixed-length or variadic unpacked part, nested one level (252 types)"], max_depth=1 if tier == "quick" else 2,
+                targets=["bare", "dataclass field", "aliased dataclass (metadata / Config.aliases / both / Annotated Alias)", "init=False field", "tuples with a fixed-length or variadic unpacked part, nested one level (252 types)", "every jsonschema annotation class on a fitting type x 7 positions (bare, field, defaulted field, Optional field, NamedTuple / TypedDict member, list element)"], max_depth=1 if tier == "quick" else 2,
                 wrapped_values="spread of 10 (aliased: 4) in quick, full product in thorough",
                 quick_combinations="bare class-free schemas: 1 (definitions cannot occur); wrapped: DRAFT/inline + OPENAPI/all_refs; aliased: OPENAPI/all_refs")
 
@@ -47,6 +48,7 @@ def units(tier):
             for a in ("alias_meta", "alias_config", "alias_both", "alias_annotated"):
                 out.append((d, a))
     out += [(None, "generic_specialisations"), (None, "same_name_classes"), (None, "init_false_field"), (None, "fixed_unpacked_tuple")]
+    out += [(None, "constraints", t) for t in CONSTRAINT_TARGETS]
     return out
 
 
@@ -86,7 +88,7 @@ def run_unit(unit, only=None):
     from mashumaro.codecs.basic import BasicEncoder
     from mashumaro.jsonschema import DRAFT_2020_12, OPEN_API_3_1, build_json_schema
     warnings.simplefilter("ignore")
-    d, target = unit
+    d, target = unit[:2]
     res = core.UnitResult()
     QUICK[0] = os.environ.get("VMC_TIER_C06", "quick") == "quick"
     if d is None:
@@ -306,7 +308,98 @@ def run_shape_special(unit, res):
     return res
 
 
+CONSTRAINT_TARGETS = ("bare", "field", "field_default", "namedtuple", "typeddict", "list_element", "optional_field")
+
+
+def _constraint_cases():
+    """(annotated type, conforming value): every annotation class of mashumaro.jsonschema.annotations on a fitting type, plus outer
+    constraints over nested containers whose INNER containers do not satisfy them (they are not constrained)."""
+    from typing import Annotated, Dict, List, Optional
+    from mashumaro.jsonschema import annotations as A
+    from mashumaro.jsonschema.models import JSONSchema
+    return [
+        (Annotated[int, A.Minimum(1)], 1), (Annotated[int, A.Maximum(5)], 5), (Annotated[int, A.ExclusiveMinimum(0)], 1),
+        (Annotated[float, A.ExclusiveMaximum(9)], 8.5), (Annotated[int, A.MultipleOf(2)], 4), (Annotated[int, A.Minimum(0), A.Maximum(0)], 0),
+        (Annotated[str, A.MinLength(1)], "a"), (Annotated[str, A.MaxLength(3)], "abc"), (Annotated[str, A.Pattern("^a")], "ab"),
+        (Annotated[List[int], A.MinItems(1)], [1]), (Annotated[List[int], A.MaxItems(2)], [1, 2]), (Annotated[List[int], A.UniqueItems(True)], [1, 2]),
+        (Annotated[List[int], A.Contains(JSONSchema(enum=[1, 2]))], [3, 1]),
+        (Annotated[List[int], A.Contains(JSONSchema(enum=[1, 2])), A.MinContains(1), A.MaxContains(2)], [1, 2, 3]),
+        (Annotated[Dict[str, int], A.MaxProperties(2)], {"a": 1}), (Annotated[Dict[str, int], A.MinProperties(1)], {"a": 1}),
+        (Annotated[Dict[str, int], A.DependentRequired({"a": {"b"}})], {"a": 1, "b": 2}),
+        (Annotated[List[List[int]], A.MinItems(1), A.MaxItems(2)], [[1, 2, 3], []]),
+        (Annotated[Dict[str, Dict[str, int]], A.MaxProperties(1)], {"g": {"a": 1, "b": 2}}),
+        (Annotated[List[Optional[List[str]]], A.MinItems(2)], [None, ["x"]]),
+    ]
+
+
+def run_constraints(unit, res):
+    import typing
+    from jsonschema import Draft202012Validator
+    from mashumaro.codecs.basic import BasicEncoder
+    from mashumaro.jsonschema import DRAFT_2020_12, OPEN_API_3_1, build_json_schema
+    _, _, target = unit
+
+    def V(clause, oc, key, detail):
+        res.violation(f"{clause}|constraints|{target}|{key}|{oc}", clause, oc, dict(desc=None, target="constraints:" + target, key=key, value_index=-1,
+                                                                               facts=dict(scenario="constraints")), detail)
+    for ci, (T, v) in enumerate(_constraint_cases()):
+        with space.Ctx() as ctx:
+            try:
+                hn = ctx.inject(T, "_h")
+                if target == "bare":
+                    S, value = T, v
+                elif target == "field":
+                    S = ctx.execute("CF", f"@dataclass\nclass CF:\n    x: {hn}\n")
+                    value = S(v)
+                elif target == "field_default":
+                    ctx.ns["_v"] = v
+                    S = ctx.execute("CF", f"@dataclass\nclass CF:\n    n: int = 0\n    x: {hn} = field(default_factory=lambda: __import__('copy').deepcopy(_v))\n")
+                    value = S()
+                elif target == "optional_field":
+                    ctx.ns["_oh"] = typing.Annotated[(typing.Optional[typing.get_args(T)[0]],) + tuple(T.__metadata__)]
+                    S = ctx.execute("CF", "@dataclass\nclass CF:\n    x: _oh = None\n")
+                    value = S(v)
+                elif target == "namedtuple":
+                    S = ctx.execute("CN", f"class CN(NamedTuple):\n    x: {hn}\n    n: int = 0\n")
+                    value = S(v)
+                elif target == "typeddict":
+                    S = ctx.execute("CT", f"class CT(TypedDict):\n    x: {hn}\n")
+                    value = {"x": v}
+                else:
+                    S, value = typing.List[T], [v, v]
+            except Exception as e:   # noqa: BLE001
+                res.cases += 1
+                V("schema-build-raised", type(e).__name__, f"{ci}/class", f"type={T} {e!r:.200}")
+                continue
+            for dialect, dname in ((DRAFT_2020_12, "DRAFT_2020_12"), (OPEN_API_3_1, "OPEN_API_3_1")):
+                for all_refs in (False, True):
+                    key = f"{ci}/{dname}/{all_refs}"
+                    res.cases += 1
+                    res.transitions += 1
+                    try:
+                        sch = build_json_schema(S, dialect=dialect, all_refs=all_refs).to_dict()
+                        doc = doc_for(sch, dname)
+                        Draft202012Validator.check_schema(doc)
+                        inst = json.loads(json.dumps(BasicEncoder(S).encode(value)))
+                        errs = list(Draft202012Validator(doc).iter_errors(inst))
+                    except Exception as e:   # noqa: BLE001
+                        V("schema-build-raised", type(e).__name__, key, f"type={T} target={target} {e!r:.200}")
+                        continue
+                    if errs:
+                        e0 = _deepest(errs[0])
+                        V("schema-rejects-serializer-output", str(e0.validator), key,
+                          f"type={T} target={target} instance={inst!r} error={e0.message[:150]} schema={json.dumps(sch)[:300]}")
+                    else:
+                        res.outcomes["valid"] += 1
+                        res.nontrivial += 1
+    res.sample(dict(scenario="constraints", target=target))
+    res.states += 1
+    return res
+
+
 def run_special(unit, res):
+    if unit[1] == "constraints":
+        return run_constraints(unit, res)
     """Distinct classes / generic specialisations must not share one definition."""
     if unit[1] in ("init_false_field", "fixed_unpacked_tuple"):
         return run_shape_special(unit, res)
@@ -359,6 +452,8 @@ def run_special(unit, res):
 
 
 def replay(case):
+    if case["desc"] is None and str(case["target"]).startswith("constraints:"):
+        return [v for v in run_unit((None, "constraints", case["target"].split(":", 1)[1])).violations if v["case"]["key"] == case["key"]]
     if case["desc"] is None:
         return [v for v in run_unit((None, case["target"])).violations if v["case"]["key"] == case["key"]]
     d = core.detuple(case["desc"])
